@@ -985,7 +985,7 @@ impl<'u> Tr<'u> {
                 }
                 if cx.is_recv(&m.receiver) {
                     let name = m.method.to_string();
-                    if cx.inline.iter().any(|i| *i == name) {
+                    if cx.inline.iter().any(|i| i.rsplit("::").next() == Some(name.as_str()) && i.contains("::")) {
                         if let Some(items) = self.trace_inline_method(&name, &args, env, cx, e.span())? {
                             return Ok(items);
                         }
@@ -994,7 +994,14 @@ impl<'u> Tr<'u> {
                 }
                 // a chain: the calls nearer to the object come first
                 let mut out = self.trace_expr(&m.receiver, env, cx)?;
-                if !out.is_empty() && chain_root(&m.receiver).map(|r| cx.is_recv(r)).unwrap_or(false) {
+                let inner_followed = call_name(strip_wrappers(&m.receiver))
+                    .map(|n| cx.inline.iter().any(|i| i.rsplit("::").next() == Some(n.as_str())))
+                    .unwrap_or(false);
+                if matches!(out.last(), Some(TraceItem::Event(..)))
+                    && !inner_followed
+                    && matches!(&*m.receiver, Expr::MethodCall(_))
+                    && chain_root(&m.receiver).map(|r| cx.is_recv(r)).unwrap_or(false)
+                {
                     out.push(TraceItem::Event(m.method.to_string(), args.iter().map(|a| abstract_arg(a)).collect()));
                     return Ok(out);
                 }
@@ -1109,16 +1116,20 @@ impl<'u> Tr<'u> {
     /// the object is argument `pos` of a call of `fname`: follow the callee when the request lists it
     /// under `inline` and it is declared exactly once in the listed files, else record one event
     fn trace_handed_on(&mut self, fname: &str, _recv: Option<&Expr>, args: &[&Expr], pos: usize, env: &Env, cx: &mut TraceCx, sp: Span) -> R<Vec<TraceItem>> {
-        if cx.inline.iter().any(|i| i == fname) && !cx.stack.iter().any(|s| s == fname) {
+        // `inline` entries: `f` = a free function, `T::m` = a method / associated function of T
+        let listed = cx.inline.iter().any(|i| i == fname || i.rsplit("::").next() == Some(fname));
+        if listed {
             let u = self.u;
             let mut cands: Vec<(usize, &Signature, &Block, Option<String>)> = Vec::new();
-            if let Some(v) = u.fns.get(fname) {
-                for a in v {
-                    cands.push((a.file, &a.item.sig, &*a.item.block, None));
+            if cx.inline.iter().any(|i| i == fname) {
+                if let Some(v) = u.fns.get(fname) {
+                    for a in v {
+                        cands.push((a.file, &a.item.sig, &*a.item.block, None));
+                    }
                 }
             }
             for ((t, m), v) in &u.methods {
-                if m == fname {
+                if m == fname && cx.inline.iter().any(|i| *i == format!("{t}::{m}")) {
                     for a in v {
                         if !matches!(a.item.sig.inputs.first(), Some(FnArg::Receiver(_))) {
                             cands.push((a.file, &a.item.sig, &a.item.block, Some(t.clone())));
@@ -1129,7 +1140,11 @@ impl<'u> Tr<'u> {
             cands.retain(|(_, sig, _, _)| sig.inputs.len() == args.len());
             if cands.len() == 1 {
                 let (file, sig, body, self_ty) = cands.pop().unwrap();
-                return self.trace_callee(fname, file, sig, body, self_ty, None, args, Some(pos), env, cx, sp);
+                let key = format!("{fname}@{}:{}", u.files[file], sig.ident.span().start().line);
+                if cx.stack.iter().any(|s| *s == key) {
+                    return Ok(vec![TraceItem::Event(fname.to_owned(), vec![])]);
+                }
+                return self.trace_callee(&key, file, sig, body, self_ty, None, args, Some(pos), env, cx, sp);
             }
             return self.err(sp, format!("`{fname}` is to be followed but is declared {} times (with {} parameters) in the listed files", cands.len(), args.len()));
         }
@@ -1138,13 +1153,10 @@ impl<'u> Tr<'u> {
 
     /// `obj.m(args)` for a method of the listed files that takes the object as `self`
     fn trace_inline_method(&mut self, name: &str, args: &[&Expr], env: &Env, cx: &mut TraceCx, sp: Span) -> R<Option<Vec<TraceItem>>> {
-        if cx.stack.iter().any(|s| s == name) {
-            return Ok(None);
-        }
         let u = self.u;
         let mut cands: Vec<(usize, &Signature, &Block, Option<String>)> = Vec::new();
         for ((t, m), v) in &u.methods {
-            if m == name {
+            if m == name && cx.inline.iter().any(|i| *i == format!("{t}::{m}")) {
                 for a in v {
                     if matches!(a.item.sig.inputs.first(), Some(FnArg::Receiver(_))) && a.item.sig.inputs.len() == args.len() + 1 {
                         cands.push((a.file, &a.item.sig, &a.item.block, Some(t.clone())));
@@ -1156,7 +1168,11 @@ impl<'u> Tr<'u> {
             return Ok(None);
         }
         let (file, sig, body, self_ty) = cands.pop().unwrap();
-        self.trace_callee(name, file, sig, body, self_ty, Some("self"), args, None, env, cx, sp).map(Some)
+        let key = format!("{name}@{}:{}", u.files[file], sig.ident.span().start().line);
+        if cx.stack.iter().any(|s| *s == key) {
+            return Ok(None);
+        }
+        self.trace_callee(&key, file, sig, body, self_ty, Some("self"), args, None, env, cx, sp).map(Some)
     }
 
     #[allow(clippy::too_many_arguments)]
@@ -1220,7 +1236,7 @@ impl<'u> Tr<'u> {
         cx.recvs = saved_recvs;
         self.cur_file = saved_file;
         let inner = r?;
-        self.notes.push(format!("call trace: `{fname}` ({}:{}) is followed", self.u.files[file], sig.ident.span().start().line));
+        self.notes.push(format!("call trace: `{}` ({}:{}) is followed", fname.split('@').next().unwrap_or(fname), self.u.files[file], sig.ident.span().start().line));
         if inner.is_empty() {
             return Ok(vec![]);
         }
@@ -1243,7 +1259,7 @@ impl<'u> Tr<'u> {
         let mut binders = Vec::new();
         self.declare_params(rq, self_ty.as_deref(), &mut env, &mut binders)?;
         self.cur_file = self.u.files[file].clone();
-        let mut cx = TraceCx { recvs: rq.receivers.iter().cloned().collect(), inline: rq.inline.clone(), stack: vec![rq.item.rsplit("::").next().unwrap_or("").to_owned()] };
+        let mut cx = TraceCx { recvs: rq.receivers.iter().cloned().collect(), inline: rq.inline.clone(), stack: vec![format!("{}@{}:{}", rq.item.rsplit("::").next().unwrap_or(""), self.u.files[file], _sig.ident.span().start().line)] };
         let items = self.trace_block(&body.stmts, &env, &mut cx)?;
         if items.is_empty() {
             return self.err(sp, format!("no call on {} in `{}`", rq.receivers.join(" / "), rq.item));
